@@ -605,6 +605,10 @@ def twin_pairs(tier):
         pairs.append((("NM", n, 1), ("TR", n, 1)))
     for n in (0, 2):
         pairs.append((("NM", n, 0), ("INT", n, 0)))
+    # the same trivially copyable type with the fast paths switched off (allocator with
+    # construct/destroy members) against itself with the fast paths on
+    for n in ((2,) if tier == "quick" else (0, 2, 3)):
+        pairs.append((("TR", n, 2), ("TR", n, 1)))
     return pairs
 
 
